@@ -27,6 +27,10 @@ type fragPipe struct {
 	reads  int        // number of Read calls that returned data
 	// quota > 0: release exactly that many more bytes, then hold again (byte-exact gating)
 	quota int
+	// heldW: Write blocks (the peer does not read and the pipe is full); broken: the peer is gone
+	heldW  bool
+	broken bool
+	inW    int // writers blocked in Write
 }
 
 func newFragPipe(next func() int) *fragPipe {
@@ -38,7 +42,13 @@ func newFragPipe(next func() int) *fragPipe {
 func (p *fragPipe) Write(b []byte) (int, error) {
 	p.mu.Lock()
 	defer p.mu.Unlock()
-	if p.closed {
+	p.inW++
+	p.cond.Broadcast()
+	for p.heldW && !p.broken && !p.closed {
+		p.cond.Wait()
+	}
+	p.inW--
+	if p.closed || p.broken {
 		return 0, io.ErrClosedPipe
 	}
 	p.buf = append(p.buf, b...)
@@ -88,6 +98,38 @@ func (p *fragPipe) Close() error {
 	p.cond.Broadcast()
 	p.mu.Unlock()
 	return nil
+}
+
+// HoldW makes Write block until ReleaseW or Break.
+func (p *fragPipe) HoldW() {
+	p.mu.Lock()
+	p.heldW = true
+	p.mu.Unlock()
+}
+
+func (p *fragPipe) ReleaseW() {
+	p.mu.Lock()
+	p.heldW = false
+	p.cond.Broadcast()
+	p.mu.Unlock()
+}
+
+// Break: the peer died. Blocked and future writes fail, the reader gets what is buffered and then EOF.
+func (p *fragPipe) Break() {
+	p.mu.Lock()
+	p.broken = true
+	p.closed = true
+	p.cond.Broadcast()
+	p.mu.Unlock()
+}
+
+// WaitWriter waits until a writer is blocked inside Write.
+func (p *fragPipe) WaitWriter() {
+	p.mu.Lock()
+	for p.inW == 0 {
+		p.cond.Wait()
+	}
+	p.mu.Unlock()
 }
 
 func (p *fragPipe) Hold() {
